@@ -13,12 +13,12 @@ package main
 
 import (
 	"fmt"
-	"os"
-	"time"
 	"go/token"
 	"go/types"
+	"os"
 	"sort"
 	"strings"
+	"time"
 
 	"golang.org/x/tools/go/ssa"
 )
@@ -153,19 +153,19 @@ type effect struct {
 }
 
 type purity struct {
-	p       *Prog
-	res     *callResolver
-	nodes   map[string]*pnode
-	heap    map[*pnode]map[string]locset
-	changed bool
-	leaves  map[types.Type][]leaf
-	memo    map[string]*memoEntry
-	prev    map[string]aval
-	stack   []string
-	root    string
-	effects map[string]*effect
-	undec   map[string]*effect
-	stats   struct{ activations, writes, freshWrites int }
+	p          *Prog
+	res        *callResolver
+	nodes      map[string]*pnode
+	heap       map[*pnode]map[string]locset
+	changed    bool
+	leaves     map[types.Type][]leaf
+	memo       map[string]*memoEntry
+	prev       map[string]aval
+	stack      []string
+	root       string
+	effects    map[string]*effect
+	undec      map[string]*effect
+	stats      struct{ activations, writes, freshWrites int }
 	writeSites map[ssa.Instruction]bool
 	lastRet    aval
 }
@@ -1204,7 +1204,7 @@ var extTable = map[string]extSum{
 	"sort.Slice": {writes: []int{0}}, "sort.SliceStable": {writes: []int{0}}, "sort.Sort": {writes: []int{0}}, "sort.Stable": {writes: []int{0}},
 	"strconv.AppendInt": {writes: []int{0}, retAlias: []int{0}}, "strconv.AppendBool": {writes: []int{0}, retAlias: []int{0}},
 	"strconv.AppendFloat": {writes: []int{0}, retAlias: []int{0}}, "strconv.AppendQuote": {writes: []int{0}, retAlias: []int{0}},
-	"strconv.AppendUint": {writes: []int{0}, retAlias: []int{0}},
+	"strconv.AppendUint":      {writes: []int{0}, retAlias: []int{0}},
 	"unicode/utf8.EncodeRune": {writes: []int{0}}, "unicode/utf8.AppendRune": {writes: []int{0}, retAlias: []int{0}},
 	"io.Reader.Read": {writes: []int{1}}, "io.Writer.Write": {}, "io.ReadFull": {writes: []int{1}},
 	"bytes.Buffer.Write": {writes: []int{0}}, "bytes.Buffer.WriteString": {writes: []int{0}}, "bytes.Buffer.WriteByte": {writes: []int{0}},
@@ -1362,9 +1362,9 @@ type purityResult struct {
 	globals map[string][]*effect
 	undec   map[string][]*effect
 	iters   map[string]int
-	retGlob map[string]string // root -> package-level object its result may alias
+	retGlob map[string]string        // root -> package-level object its result may alias
 	outlive map[*ssa.Function]string // closures reachable from some root's result or stored into prestate / package-level state -> root
-	retIn   map[string]string // root -> client-writable part of the result that aliases memory that existed before
+	retIn   map[string]string        // root -> client-writable part of the result that aliases memory that existed before
 	stats   struct{ activations, writes, freshWrites, writeSites int }
 }
 
@@ -1612,7 +1612,6 @@ func sharedStateCounts(c *Ctx) {
 		}
 	}
 }
-
 
 // purityRuleG: like purityRule, and additionally reports writes to package-level state by those roots.
 func purityRuleG(id, name string, floor int, roots ...string) {
